@@ -193,6 +193,39 @@ def run(ctx):
                                   'a context/factory/parmap function takes a scheduling decision that belongs to maestro\'s sequential code', key='R3|%s|calls scheduler' % fn['q'])
     ctx.check(nbad == 0 and nctx >= 30, 'R3', 'none of the %d functions of src/kernel/context and xbt/parmap.hpp calls simcall_handle, simcall_answer or the run-list insertion' % nctx, '',
               '', key='R3|contexts|who-may-call')
+    # ---- R4 who may look at the execution configuration -------------------------------------------------------------------------------------------------
+    ctx.rule('R4', 'outside the context layer nothing reads the number of worker threads, the parallel mode or the factory kind (so no kernel decision can depend on them)', 2)
+    CTXQ = K + 'context::Context::'
+    readers = {CTXQ + 'is_parallel', CTXQ + 'get_nthreads', CTXQ + 'get_parallel_mode'}
+    cfgvars = {CTXQ + 'parallel_contexts', CTXQ + 'parallel_mode', K + 'context::context_factory_name', K + 'context::factory_name'}
+    benign = {('sg_config_init', CTXQ + 'is_parallel'): 'tells the mallocators whether several threads will allocate (a memory-management choice, not a simulated decision)',
+              ('sg_config_finalize', CTXQ + 'is_parallel'): 'same, at teardown'}
+    nread = 0
+    for key, fn in sorted(P.fns.items()):
+        f_rel = fn['file'][len(REPO) + 1:] if fn['file'].startswith(REPO) else fn['file']
+        if f_rel.startswith(('src/kernel/context/', 'include/simgrid/kernel/context/')) or f_rel.endswith('xbt/parmap.hpp') or not fn.get('elems'):
+            continue
+        for el in fn['elems']:
+            written = set(id(n['a'][0]) for n in ex.walk(el['x']) if n.get('k') == 'Bin' and n.get('op') == '=' and n.get('a'))     # configuration setters write, they do not read
+            for n in ex.walk(el['x']):
+                q = None
+                if id(n) in written:
+                    continue
+                if n.get('k') == 'Call' and (n.get('c') or {}).get('q') in readers:
+                    q = n['c']['q']
+                elif n.get('k') in ('Ref', 'Mem') and (n.get('d') or {}).get('n') in cfgvars:
+                    q = n['d']['n']
+                elif n.get('k') == 'Str' and n.get('v') in ('contexts/nthreads', 'contexts/synchro', 'contexts/factory') and not f_rel.endswith(('sg_config.cpp', 'EngineImpl.cpp')):
+                    q = 'the option ' + n['v']
+                if q is None:
+                    continue
+                nread += 1
+                why = benign.get((fn['q'].rsplit('::', 1)[-1], q))
+                ctx.check(why is not None, 'R4', '%s reads %s' % (fn['q'].replace(K, ''), q.replace(K, '')), where(fn, n.get('l') or el.get('l')),
+                          why or 'code outside the context layer can behave differently with the number of threads or the factory: the outcome may depend on them',
+                          key='R4|%s|reads %s' % (fn['q'].replace(K, ''), q.rsplit('::', 1)[-1]))
+    ctx.check(True, 'R4', 'every other function of the %d loaded units is silent about the execution configuration' % len(ctx.units_loaded) if hasattr(ctx, 'units_loaded') else 'every other loaded function is silent about the execution configuration', '', '%d reader(s) listed above' % nread,
+              key='R4|readers|closed list')
     ctx.assume('absence of data races in user code and in the few kernel counters touched from actor context, and the memory ordering of the synchro primitives, are not decided; '
                'the raw and boost factories share SwappedContext (only swap_into_for_real differs, which is a stack switch); exactly-once hand-out of the parallel map is C49')
     return EXPLANATION
